@@ -636,6 +636,7 @@ pub fn nontrivial_for(focus: &str, out: &RunOut) -> bool {
         "C08" => g("calls") > 5 && g("sends") > 0,
         "C09" => g("calls") > 5,
         "C10" => g("incarnation_bumps") + g("self_down_triggers") + g("self_suspicions_processed") > 0,
+        "C12" => g("c12_replies_owed") > 0,
         "C13" => g("c13_stale_timer_delivered") + g("c13_ledger_checks_active") > 0,
         "C15" => g("c15_nonempty_sections") > 0,
         "C16" => g("c16_items_sent") + g("c16_items_received") > 0,
